@@ -84,7 +84,8 @@ def build(targets: list[str] | None = None) -> float:
         fcntl.flock(lock, fcntl.LOCK_UN)
         lock.close()
     if p.returncode != 0:
-        raise InfraError("lake build failed:\n" + p.stdout[-4000:])
+        errs = [ln for ln in p.stdout.split("\n") if "error" in ln.lower()]
+        raise InfraError("lake build failed:\n" + "\n".join(errs[:12])[:1500])
     return time.time() - t0
 
 
